@@ -1,6 +1,8 @@
 package checks
 
 import (
+	"context"
+	"errors"
 	"fmt"
 	"runtime"
 	"sync"
@@ -9,7 +11,9 @@ import (
 
 	"github.com/failsafe-go/failsafe-go"
 	"github.com/failsafe-go/failsafe-go/circuitbreaker"
+	"github.com/failsafe-go/failsafe-go/common"
 	"github.com/failsafe-go/failsafe-go/hedgepolicy"
+	"github.com/failsafe-go/failsafe-go/ratelimiter"
 	"github.com/failsafe-go/failsafe-go/retrypolicy"
 
 	"verifharness/vk"
@@ -151,14 +155,25 @@ func c16ExceededOnce(rep *vk.Report, idx int) {
 		return 0, errE1
 	}
 	var err error
+	var execSuccess, execFailure atomic.Int64
+	ex := failsafe.NewExecutor[int](pols...).
+		OnSuccess(func(failsafe.ExecutionDoneEvent[int]) { execSuccess.Add(1) }).
+		OnFailure(func(failsafe.ExecutionDoneEvent[int]) { execFailure.Add(1) })
 	if r.IntN(3) == 0 {
-		_, err = failsafe.NewExecutor[int](pols...).GetAsync(fn).Get()
+		_, err = ex.GetAsync(fn).Get()
 	} else {
-		_, err = failsafe.NewExecutor[int](pols...).Get(fn)
+		_, err = ex.Get(fn)
 	}
 	time.Sleep(time.Millisecond)
 	rep.Eval()
 	cs := map[string]any{"nesting": nest, "inner_gives_up_by": giveUp}
+	// every invocation failed with an error the retry policy handles and the policy gave up: whatever the caller is handed
+	// (ExceededError, the abort outcome, or a later attempt's raw error passed through after the policy had given up), the
+	// execution failed, and the executor must say so
+	if err != nil && (execFailure.Load() != 1 || execSuccess.Load() != 0) {
+		rep.Violate(idx, "C16/executor-verdict-does-not-match-result", fmt.Sprintf("%s, inner retry policy gives up by %s, every invocation fails: the call returned %v, executor OnSuccess fired %d times and OnFailure %d times (want 0 and 1)", nest, giveUp, err, execSuccess.Load(), execFailure.Load()), cs)
+		return
+	}
 	// A13: an inner policy that aborted is asked again when the outer policy retries and aborts again on the same outcome;
 	// whether those count as "the" abort of the execution is not stated, so only the exceeded event is held to "once"
 	if exceeded.Load() > 1 || exceeded.Load() > 0 && aborted.Load() > 0 {
@@ -169,4 +184,66 @@ func c16ExceededOnce(rep *vk.Report, idx int) {
 		rep.Count("inner_retry_policy_reentered_after_giving_up", 1)
 		rep.Distinct(fmt.Sprintf("xonce|%s|%s|%d", nest, giveUp, min(calls.Load(), 12)))
 	}
+}
+
+// c16LimiterWaitCancelledAfterRejection: Retry(RateLimiter(fn)) on a virtual stopwatch. Attempt 1 arrives when the next
+// permit is further away than the max wait: refused, OnRateLimitExceeded fires. While the retry delay passes the clock
+// moves on, so attempt 2 is within the max wait and waits (a real timer) for its permit; the execution is then cancelled
+// during that wait. Only attempt 1 was a rejection: the rejection listener must have fired exactly once, and the
+// application of the limiter that was cancelled while waiting must not report ErrExceeded.
+func c16LimiterWaitCancelledAfterRejection(rep *vk.Report, idx int) {
+	r := vk.Rng(rep.Seed, "C16l", idx)
+	var now atomic.Int64
+	interval := 200 * time.Millisecond
+	maxWait := 100 * time.Millisecond
+	var exceededEvents, apps, appsExceeded atomic.Int64
+	b := ratelimiter.SmoothBuilderWithMaxRate[int](interval).WithMaxWaitTime(maxWait).OnRateLimitExceeded(func(failsafe.ExecutionEvent[int]) { exceededEvents.Add(1) })
+	rl := ratelimiter.VerifWithStopwatch(b.Build(), func() time.Duration { return time.Duration(now.Load()) })
+	rl.TryAcquirePermit() // the next permit is one interval away
+	source := vk.Pick(r, "ctx", "async")
+	waiting := make(chan struct{})
+	probe := &probePolicy{
+		before: func(failsafe.Execution[int]) any {
+			if apps.Add(1) == 2 {
+				close(waiting) // attempt 2 is about to ask the limiter
+			}
+			return nil
+		},
+		after: func(_ failsafe.Execution[int], _ any, res *common.PolicyResult[int]) {
+			if errors.Is(res.Error, ratelimiter.ErrExceeded) {
+				appsExceeded.Add(1)
+			}
+		},
+	}
+	rp := retrypolicy.Builder[int]().WithMaxRetries(2).WithDelay(time.Millisecond).OnRetryScheduled(func(failsafe.ExecutionScheduledEvent[int]) {
+		now.Add(int64(interval - maxWait + 20*time.Millisecond)) // attempt 2 needs 80ms: within the max wait
+	}).Build()
+	ctx, cancel := context.WithCancel(context.Background())
+	defer cancel()
+	ex := failsafe.NewExecutor[int](rp, probe, rl).WithContext(ctx)
+	ran := false
+	ar := ex.GetAsync(func() (int, error) { ran = true; return 1, nil })
+	select {
+	case <-waiting:
+	case <-time.After(5 * time.Second):
+	}
+	time.Sleep(time.Duration(2+r.IntN(10)) * time.Millisecond) // well inside the 80ms wait
+	if source == "async" {
+		ar.Cancel()
+	} else {
+		cancel()
+	}
+	_, err := ar.Get()
+	rep.Eval()
+	cs := map[string]any{"cancel": source}
+	if ran || apps.Load() != 2 {
+		rep.Count("limiter_wait_scenarios_disturbed", 1) // the 80ms wait ran out before the cancellation was delivered
+		return
+	}
+	if exceededEvents.Load() != 1 || appsExceeded.Load() != 1 {
+		rep.Violate(idx, "C16/rate-limit-exceeded-event-for-a-cancelled-wait", fmt.Sprintf("Retry(RateLimiter(fn)): attempt 1 was refused (wait beyond the max wait), attempt 2 was within the max wait and was cancelled (%s) while waiting for its permit: OnRateLimitExceeded fired %d times and %d of the 2 limiter applications returned ErrExceeded (want 1 and 1); call returned %v", source, exceededEvents.Load(), appsExceeded.Load(), err), cs)
+		return
+	}
+	rep.Count("limiter_wait_cancelled_after_rejection", 1)
+	rep.Distinct("rlcancel|" + source)
 }
